@@ -148,6 +148,16 @@ def renderLists (m : List (Nat × List Nat)) : String :=
   orDash (";".intercalate ((sortBy (fun a b => a.1 ≤ b.1) m).map fun kv =>
     s!"{kv.1}:" ++ "+".intercalate ((sortBy (fun a b => decide (a ≤ b)) kv.2).map toString)))
 
+def recLe (a b : Record) : Bool :=
+  if a.pkg != b.pkg then a.pkg < b.pkg
+  else if a.name != b.name then a.name < b.name
+  else if a.dist != b.dist then a.dist < b.dist
+  else a.repo ≤ b.repo
+
+/-- the records of `IndexRecords`, sorted (the Go map iteration order is not an observation) -/
+def renderRecords (rs : List Record) : String :=
+  orDash (",".intercalate ((sortBy recLe rs).map fun r => s!"{r.pkg}.{r.name}.{r.dist}.{r.repo}"))
+
 def renderReport (r : Report) : String := s!"V={renderV r} P={renderLists r.pkgVulns}"
 
 /-! ### the step function -/
@@ -267,6 +277,7 @@ def stepLine (s : Scenario) (l : String) : Scenario × String :=
     match parseEnricher ws with
     | some e => ({ s with enrichers := s.enrichers ++ [e] }, "ok")
     | none => (s, "bad-op")
+  | ["records"] => (s, renderRecords (indexRecords (scenarioIR s)))
   | "scan" :: api :: ctx :: _ => (s, scan s api ctx)
   | _ => (s, "bad-op")
 
